@@ -3056,7 +3056,12 @@ where
         // We cannot use result of `peek()` directly because of borrow checker
         let _ = self.peek()?;
         match self.last_peeked() {
-            DeEvent::Text(t) if t.is_empty() => visitor.visit_none(),
+            DeEvent::Text(t) if t.is_empty() => {
+                // Consume the empty text, otherwise the sequence of options
+                // at the top level would return `None` forever
+                self.next()?;
+                visitor.visit_none()
+            }
             DeEvent::Eof => visitor.visit_none(),
             // if the `xsi:nil` attribute is set to true we got a none value
             DeEvent::Start(start) if self.reader.reader.has_nil_attr(&start) => {
